@@ -922,3 +922,35 @@ theorem success_char (env : Env) (hco : env.CleanOrderOk) (st : State) (req : Re
         · simp [handleApplyFlows, hb, hst, hpr, hcl] at hs
 
 end LunarVerif.C08
+
+namespace LunarVerif.C08
+
+/-- Steps of `Restore()` and of the reload that follows it. -/
+def Step.inRestore : Step → Bool
+  | .restoreRead | .restoreStore _ => true
+  | .validate r | .initialize r | .haproxy r | .metrics r => decide (r = 2)
+  | _ => false
+
+theorem single_fault_restoreFaultFree (env : Env) (k : Step) (hk : env.plan = fun s => decide (s = k))
+    (hnr : k.inRestore = false) : env.RestoreFaultFree := by
+  constructor <;> (try intro p) <;> rw [hk] <;> simp only [decide_eq_false_iff_not] <;>
+    intro e <;> subst e <;> simp [Step.inRestore] at hnr
+
+/-- A concrete environment for the witnesses: a file is rejected by the dry run / the metrics loader
+    iff its content is the text `bad`; HAProxy always has endpoints; at most one injected fault. -/
+def demoEnv (fault : Option Step) : Env :=
+  { plan := fun s => match fault with | some f => decide (s = f) | none => false,
+    validates := fun d => d.all (fun e => e.1 = .userMetrics || e.1 = .defaultMetrics || e.2 != "bad"),
+    metricsOk := fun d => match d.get .userMetrics with
+      | some c => c != "bad"
+      | none => match d.get .defaultMetrics with
+        | some c => c != "bad"
+        | none => false,
+    hasEndpoints := fun _ => true,
+    cleanOrder := [.gateway, .userMetrics] }
+
+theorem demoEnv_cleanOrderOk (f : Option Step) : (demoEnv f).CleanOrderOk := by
+  intro p
+  cases p <;> simp [demoEnv]
+
+end LunarVerif.C08
